@@ -34,7 +34,7 @@ class Hash(enum.Enum):
 # simpler.
 _HASH_REGEXES = {
     Hash.MD5: r"^[a-f0-9]{32}$",
-    Hash.MD6: r"^[a-f0-9]{32}|[a-f0-9]{40}|[a-f0-9]{56}|[a-f0-9]{64}|[a-f0-9]{96}|[a-f0-9]{128}$",
+    Hash.MD6: r"^(?:[a-f0-9]{32}|[a-f0-9]{40}|[a-f0-9]{56}|[a-f0-9]{64}|[a-f0-9]{96}|[a-f0-9]{128})$",
     Hash.RIPEMD160: r"^[a-f0-9]{40}$",
     Hash.SHA1: r"^[a-f0-9]{40}$",
     Hash.SHA224: r"^[a-f0-9]{56}$",
